@@ -152,6 +152,10 @@ class IntE(enum.IntEnum):
     one = 1
 
 
+class Ratio(float, enum.Enum):
+    half = 1.5
+
+
 # ---- values as data ------------------------------------------------------------------------------------------------
 # value node := ["raw", json] | ["pyv", kind, text] | ["enumv", name]
 
@@ -161,12 +165,16 @@ def to_py(vnode):
         return vnode[1]
     if vnode[0] == "pyv":
         return prog.pyv(vnode[1], vnode[2])
+    if vnode[0] == "enumdoc":
+        # a JSON-serialisable document holding enum members that are numbers (json.dumps writes 1.5 and 1)
+        return {"ratio": Ratio.half, "n": IntE.one, "l": [Ratio.half]}
     if vnode[0] == "enumv":
         return {"color_red": Color.red, "color_num": Color.num, "int_one": IntE.one}[vnode[1]]
     raise HarnessError(vnode)
 
 
 prog.EXTRA_NODES["enumv"] = lambda node, env: to_py(node)
+prog.EXTRA_NODES["enumdoc"] = lambda node, env: to_py(node)
 
 SPECIAL = ["'", '"', "`", "\\", "--", "/*", "*/", "#", "?", "%s", "$1", ":x", "\n", "\r", "\t", "\0", "\x1a", "ü", "\U0001f600", "é", "ʼ", "＇", " ", ";", "%", "_", "''", "\\'", "\\\\",
            "{", "}", "{}", "{0}", "{filter_sql}", "{criterion}", "%(x)s", "%%"]  # text that str.format / % would rewrite
@@ -202,6 +210,7 @@ def value_nodes():
         st.uuids().map(lambda u: ["pyv", "uuid", str(u)]),
         st.sampled_from(["color_red", "color_num", "int_one"]).map(lambda n: ["enumv", n]),
         json_values().map(lambda v: ["raw", v]),
+        st.just(["enumdoc"]),
         # JSON-serialisable documents a JSON file cannot carry as they are: non-str keys, tuples
         st.sampled_from(["{1: 'a'}", "{'ids': (1, 2)}", "{None: 1, True: 2}", "{'k': ('x', \"it's\")}", "[(1, 'a'), {2.5: None}]", "{7: {8: (9,)}}"]).map(lambda t: ["pyv", "literal", t]),
     )
